@@ -59,6 +59,7 @@ Record pcfg := {
   pc_host : host_cfg;
   pc_fs : bytes -> option bytes;                 (* what the operating system returns for a path string *)
   pc_tree : node;                                (* the same tree, for the list of opened objects *)
+  pc_host_header : bytes;                        (* what the client writes into the Host header (HTTP/1.1, in process) *)
   pc_handlers : list (bytes * (bytes * N))       (* path -> body, spref (0 = None, 1 = QueryMatters, 2 = Full) *)
 }.
 
@@ -190,15 +191,22 @@ Definition cache_lookup (on : bool) (kpq kp : ckey) (cache : cache_t) : option c
 (** [Cors::is_part_of_origin]: the request is of the same origin as its [Origin] header when the scheme and the
     AUTHORITY of its URI equal the header's.  The URI is "http://localhost" ++ target: a target that does not
     start with '/', '?' or '#' lengthens the authority, so an [Origin] of the site itself (kinds 1, 4) is then a
-    foreign one (kinds 2, 3). *)
+    foreign one (kinds 2, 3); and a Host header naming the other site makes ITS [Origin] the request's own. *)
 Fixpoint take_authority (s : bytes) : bytes :=
   match s with
   | [] => []
   | c :: r => if (c =? 47) || (c =? 63) || (c =? 35) then [] else c :: take_authority r
   end.
-Definition eff_kind (target : bytes) (okind : N) : N :=
-  if is_empty (take_authority target) then okind
-  else if okind =? 1 then 2 else if okind =? 4 then 3 else okind.
+Definition eff_kind_h (host_header target : bytes) (okind : N) : N :=
+  let a := take_authority (host_header ++ target) in
+  let own := beq a (B "localhost") in            (* kinds 1, 4: Origin: http://localhost *)
+  let other := beq a (B "other.example") in      (* kinds 2, 3: Origin: http://other.example *)
+  if okind =? 1 then (if own then 1 else 2)
+  else if okind =? 4 then (if own then 4 else 3)
+  else if okind =? 2 then (if other then 1 else 2)
+  else if okind =? 3 then (if other then 4 else 3)
+  else okind.
+Definition eff_kind : bytes -> N -> N := eff_kind_h (B "localhost").
 
 (** what can be written into an HTTP/1.1 request line (or an HTTP/2 header field) without changing its framing *)
 Definition wire_ok (s : bytes) : bool :=
@@ -213,11 +221,13 @@ Record front := {
   f_sendable : bytes -> bytes -> bool;
   f_headless : bool
 }.
-(** in process (harness/src/c00pipe.rs make_request) and kvarn's HTTP/1 readers: "http://localhost" ++ target *)
-Definition front_inproc : front :=
-  {| f_uri := target_uri; f_kind := eff_kind; f_sendable := fun _ _ => true; f_headless := false |}.
-Definition front_h1 : front :=
-  {| f_uri := target_uri; f_kind := eff_kind; f_sendable := fun m t => wire_ok m && wire_ok t; f_headless := true |}.
+(** in process (harness/src/c00pipe.rs make_request) and kvarn's HTTP/1 readers: "http://" ++ Host header ++ target *)
+Definition front_inproc_h (hh : bytes) : front :=
+  {| f_uri := uri_of hh; f_kind := eff_kind_h hh; f_sendable := fun _ _ => true; f_headless := false |}.
+Definition front_h1_h (hh : bytes) : front :=
+  {| f_uri := uri_of hh; f_kind := eff_kind_h hh; f_sendable := fun m t => wire_ok m && wire_ok t; f_headless := true |}.
+Definition front_inproc : front := front_inproc_h (B "localhost").
+Definition front_h1 : front := front_h1_h (B "localhost").
 (** HTTP/2: the h2 crate builds the URI from [:scheme], [:authority] and [PathAndQuery::from_maybe_shared(:path)];
     the authority is the site's whatever the path is; a CONNECT request carries no [:path].  [front_h2]: the h2
     crate's client, which sends origin-form paths only; [front_h2raw]: a client that writes the HEADERS frame
@@ -347,10 +357,10 @@ Definition d_request (x : xval) : option op :=
 Definition internal_keys (default_ext : bool) : list bytes :=
   if default_ext then [cors_fail; cors_options] else [].
 
-(** host options: (L (B errors_dir) (B extension_default) (B folder_default) (N disable_fs)) *)
+(** host options: (L (B errors_dir) (B extension_default) (B folder_default) (N disable_fs) (B host_header)) *)
 Definition decode_scenario (x : xval) : option (pcfg * list op) :=
   match x with
-  | XL [XL [de; ca; fc; XB public; files; handlers; XL [XB errors; XB ext; XB folder; nofs]]; reqs] =>
+  | XL [XL [de; ca; fc; XB public; files; handlers; XL [XB errors; XB ext; XB folder; nofs; XB hh]]; reqs] =>
       match d_bool de, d_bool ca, d_bool fc, d_bool nofs, d_list d_pair_BB files, d_list d_handler handlers, d_list d_request reqs with
       | Some de, Some ca, Some fc, Some nofs, Some files, Some handlers, Some reqs =>
           let root := fixture_root files in
@@ -360,6 +370,7 @@ Definition decode_scenario (x : xval) : option (pcfg * list op) :=
                                  h_prepare_single := map fst handlers ++ internal_keys de |};
                    pc_fs := read_path root root;
                    pc_tree := fixture_tree files;
+                   pc_host_header := hh;
                    pc_handlers := handlers |}, reqs)
       | _, _, _, _, _, _, _ => None
       end
@@ -391,25 +402,25 @@ Definition benign_host_b (h : host_cfg) : bool := benign_suffix_b (h_ext_default
     hand-written HEADERS frames: any [:path]), [pathsanpipe.sys] (in process under a system-call trace).
     input: (L (L default_ext cache fcache (B public_dir) files handlers options) requests), see harness/src/c01pipe.rs.
     The spec components' output: (L (N benign) per-request ...). *)
-Definition run_front (f : front) (sys : bool) (x : xval) : xval :=
+Definition run_front (f : bytes -> front) (sys : bool) (x : xval) : xval :=
   match decode_scenario x with
-  | Some (c, reqs) => XL (run_history_with f (if sys then fmt_sys else fmt_std c) c empty_state reqs)
+  | Some (c, reqs) => XL (run_history_with (f (pc_host_header c)) (if sys then fmt_sys else fmt_std c) c empty_state reqs)
   | None => bad_input
   end.
-Definition run_front_spec (f : front) (x : xval) : xval :=
+Definition run_front_spec (f : bytes -> front) (x : xval) : xval :=
   match decode_scenario x with
-  | Some (c, reqs) => XL (x_bool (benign_host_b (pc_host c)) :: map (spec_request f) reqs)
+  | Some (c, reqs) => XL (x_bool (benign_host_b (pc_host c)) :: map (spec_request (f (pc_host_header c))) reqs)
   | None => bad_input
   end.
-Definition run_pipe : xval -> xval := run_front front_inproc false.
+Definition run_pipe : xval -> xval := run_front front_inproc_h false.
 
 Definition pathsanpipe_table : list (bytes * (xval -> xval)) :=
-  [ (B "pathsanpipe.run", run_front front_inproc false);
-    (B "pathsanpipe.spec", run_front_spec front_inproc);
-    (B "pathsanpipe.wire", run_front front_h1 false);
-    (B "pathsanpipe.wire_spec", run_front_spec front_h1);
-    (B "pathsanpipe.h2", run_front front_h2 false);
-    (B "pathsanpipe.h2_spec", run_front_spec front_h2);
-    (B "pathsanpipe.h2raw", run_front front_h2raw false);
-    (B "pathsanpipe.h2raw_spec", run_front_spec front_h2raw);
-    (B "pathsanpipe.sys", run_front front_inproc true) ].
+  [ (B "pathsanpipe.run", run_front front_inproc_h false);
+    (B "pathsanpipe.spec", run_front_spec front_inproc_h);
+    (B "pathsanpipe.wire", run_front front_h1_h false);
+    (B "pathsanpipe.wire_spec", run_front_spec front_h1_h);
+    (B "pathsanpipe.h2", run_front (fun _ => front_h2) false);
+    (B "pathsanpipe.h2_spec", run_front_spec (fun _ => front_h2));
+    (B "pathsanpipe.h2raw", run_front (fun _ => front_h2raw) false);
+    (B "pathsanpipe.h2raw_spec", run_front_spec (fun _ => front_h2raw));
+    (B "pathsanpipe.sys", run_front front_inproc_h true) ].
